@@ -15,7 +15,7 @@ theorem C07.registered_within_stop (tz : Option Int) (maxExec : Nat) (prio : Pri
   have hI := reach_inv tz maxExec prio ops
   have ha := hI.hasAtt k hk (by simp) sj hf
   have hmem : sj ∈ (reach tz maxExec prio ops).heap := List.mem_of_getElem? hf
-  exact JobOK.due_le_stop sj.job (hI.heapOK sj hmem) (hasAttempts_markDelete _ ha) st hs
+  exact hI.settled k (by simp) sj hf (hasAttempts_markDelete _ ha) st hs
 
 /-- **every invocation belongs to a due time ≤ stop** (also for forced calls): whenever a worker
     starts a queued job during any `exec_jobs` call, the due time recorded for that invocation does
@@ -24,28 +24,39 @@ theorem C07.invocations_within_stop (s : State) (D B : List Nat) (k : Nat) (h : 
     (sj : SJob) (hf : s.find k = some sj) (st : DT) (hs : sj.job.stop = some st) :
     sj.job.due.inst ≤ st.inst := by
   obtain ⟨_, hatt⟩ := h.bOK k (by simp)
-  have hmem : sj ∈ s.heap := List.mem_of_getElem? hf
-  exact JobOK.due_le_stop sj.job (h.mid.heapOK sj hmem) (hasAttempts_markDelete _ (hatt sj hf)) st hs
+  exact h.mid.settled k (h.disj k (by simp)) sj hf (hasAttempts_markDelete _ (hatt sj hf)) st hs
 
 /-- **removed by the call after which the next due time would exceed stop**: after any operation a
-    job whose pending timer lies past its stop is not registered -/
+    job whose next due time lies past its stop is not registered -/
 theorem C07.removed_when_past (tz : Option Int) (maxExec : Nat) (prio : PrioKind) (ops : List Op)
     (k : Nat) (sj : SJob) (hf : (reach tz maxExec prio ops).find k = some sj) (st : DT)
-    (hs : sj.job.stop = some st) (hp : st.inst < sj.job.pendingTimer.next.inst) :
+    (hs : sj.job.stop = some st) (hp : st.inst < sj.job.due.inst) :
     k ∉ (reach tz maxExec prio ops).reg := by
   intro hk
-  have hI := reach_inv tz maxExec prio ops
-  have ha := hI.hasAtt k hk (by simp) sj hf
-  have hmem : sj ∈ (reach tz maxExec prio ops).heap := List.mem_of_getElem? hf
-  have := (hI.heapOK sj hmem).pend (hasAttempts_markDelete _ ha) st hs
+  have := C07.registered_within_stop tz maxExec prio ops k sj hk hf st hs
   omega
 
+/-- … and not earlier: the rescheduling step of `exec_jobs` (and nothing else) sets the retirement
+    flag, and it sets it exactly when the new due time exceeds stop -/
+theorem C07.retired_only_when_past (j : Job) (ref : DT) (hm : j.markDelete = false)
+    (ha : 0 < j.attempts) :
+    (j.calcNext ref).markDelete = Job.pastStop (j.calcNext ref).stop (j.calcNext ref).due := by
+  have hd : (j.calcNext ref).due = (j.calcNext ref).pendingTimer.next := by
+    have : (j.calcNext ref).attempts = j.attempts := rfl
+    unfold Job.due
+    rw [this]
+    have : (j.attempts == 0) = false := by simp; omega
+    simp [this]
+  rw [hd]
+  simp [Job.calcNext, hm, Job.pendingTimer]
+
 /-- **a job whose first due time already exceeds stop is never registered** — by a scheduling
-    call or by the constructor -/
+    call or by the constructor; one whose first due time (`start` itself with `delay=False`) lies
+    within the window is registered (unless it has no attempts at all) -/
 theorem C07.first_past_stop_never_registered (s : State) (sp : RawSpec) (clock : Int) (direct : Bool)
     (j : Job) (hc : (if direct then createJobDirect s.tz sp clock else createJob s.tz sp clock) = .ok j)
-    (st : DT) (hs : j.stop = some st) (hp : st.inst < j.pendingTimer.next.inst)
-    (hm : j.markDelete = Job.pastStop j.stop j.pendingTimer.next) :
+    (st : DT) (hs : j.stop = some st) (hp : st.inst < j.due.inst)
+    (hm : j.markDelete = Job.pastStop j.stop j.due) :
     (schedule s sp clock direct).1.reg = s.reg := by
   unfold SV.schedule
   rw [hc]
@@ -53,10 +64,36 @@ theorem C07.first_past_stop_never_registered (s : State) (sp : RawSpec) (clock :
     simp [Job.hasAttempts, hm, hs, Job.pastStop, hp]
   simp [this]
 
-/-- the flag used above is how `BaseJob.__init__` computes it -/
+/-- the flag used above is how `BaseJob.__init__` computes it: from the first due time -/
 theorem C07.build_markDelete (ts : List Timing) (s : DT) (stop : Option DT) (delay skip : Bool) (m : Int) :
     (Job.build ts s stop delay skip m).markDelete =
-      Job.pastStop (Job.build ts s stop delay skip m).stop (Job.build ts s stop delay skip m).pendingTimer.next := rfl
+      Job.pastStop (Job.build ts s stop delay skip m).stop (Job.build ts s stop delay skip m).due := by
+  cases delay <;> simp [Job.build, Job.due, Job.pendingTimer]
+
+/-- a fresh job whose first due time is within the window is kept -/
+theorem C07.first_within_stop_registered (ts : List Timing) (s : DT) (stop : Option DT) (delay skip : Bool)
+    (m : Int) (hmx : m = 0 ∨ 0 < m)
+    (hw : ∀ st, stop = some st → (Job.build ts s stop delay skip m).due.inst ≤ st.inst) :
+    (Job.build ts s stop delay skip m).hasAttempts = true := by
+  have hm : (Job.build ts s stop delay skip m).markDelete = false := by
+    rw [C07.build_markDelete]
+    cases stop with
+    | none => rfl
+    | some st =>
+        have := hw st rfl
+        simp only [Job.pastStop]
+        have e : (Job.build ts s (some st) delay skip m).stop = some st := rfl
+        rw [e]
+        simp only [decide_eq_false_iff_not]
+        omega
+  have ha : (Job.build ts s stop delay skip m).attempts = 0 := rfl
+  have hmm : (Job.build ts s stop delay skip m).maxAtt = m := rfl
+  unfold Job.hasAttempts
+  rw [hm, ha, hmm]
+  rcases hmx with h | h
+  · simp [h]
+  · have : (m == 0) = false := by simp; omega
+    simp [this]; omega
 
 /-- **a stop that is not later than start (or than the creation time when no start is given) is
     rejected with SchedulerError** -/
@@ -99,5 +136,15 @@ example : ∃ sj, (reach none 0 .linear
     [.sched { call := .cyclic, timings := [.td 10], isList := false,
               stop := some { loc := 125, off := none } } 100]).find 0 = some sj ∧ sj.job.stop ≠ none :=
   ⟨_, rfl, by decide⟩
+
+/-! a `delay=False` job whose `start` lies inside the window but `start + T` past it is registered,
+    runs once at `start` and is retired by that call (defect D11 before the repair) -/
+example : (reach none 0 .linear
+    [.sched { call := .cyclic, timings := [.td 100], isList := false, delay := false,
+              stop := some { loc := 150, off := none } } 100]).reg = [0] := by decide
+example : (reach none 0 .linear
+    [.sched { call := .cyclic, timings := [.td 100], isList := false, delay := false,
+              stop := some { loc := 150, off := none } } 100,
+     .exec 100 true [] [] []]).reg = [] := by decide
 
 end SV
